@@ -1,5 +1,5 @@
-CONSTANTS SessYears = {1900, 2000, 2261, 2299}
-          DayMod = 7
+CONSTANTS SessYears = {2000, 2261}
+          DayMod = 13
           MaxLen = 2
           Rot = 2
 INIT Init
